@@ -454,7 +454,8 @@ class Gen(object):
             a, b = ev(n.left), ev(n.right)
             if isinstance(a, SList) and isinstance(b, SList) and isinstance(n.op, ast.Add):
                 return self.concat(a, b, path)
-            a, b = unify(a, b)
+            if not isinstance(n.op, ast.Pow):
+                a, b = unify(a, b)
             if isinstance(n.op, ast.Add):
                 return a + b
             if isinstance(n.op, ast.Sub):
@@ -485,6 +486,13 @@ class Gen(object):
                 r = fresh('fmod', I)
                 path.hyps.append(atom(z3.And(a == b * q + r, z3.If(b > 0, z3.And(0 <= r, r < b), z3.And(b < r, r <= 0)))))
                 return r
+            if isinstance(n.op, ast.Pow):
+                if z3.is_int_value(b) and 0 <= b.as_long() <= 4:
+                    r = z3.RealVal(1) if is_real(a) else z3.IntVal(1)
+                    for _ in range(b.as_long()):
+                        r = r * a
+                    return r
+                raise Unsupported('power with a non-constant exponent')
             raise Unsupported('operator %s' % type(n.op).__name__)
         if isinstance(n, ast.UnaryOp):
             v = ev(n.operand)
@@ -651,6 +659,24 @@ class Gen(object):
             raise Unsupported('comprehension shape')
         g = n.generators[0]
         it = g.iter
+        # [[c for _ in range(a)] for _ in range(b)]  with an element that does not depend on either position
+        if isinstance(n.elt, ast.ListComp) and len(n.elt.generators) == 1 and not n.elt.generators[0].ifs \
+                and isinstance(it, ast.Call) and isinstance(it.func, ast.Name) and it.func.id == 'range' and len(it.args) == 1 \
+                and isinstance(n.elt.generators[0].iter, ast.Call) and isinstance(n.elt.generators[0].iter.func, ast.Name) \
+                and n.elt.generators[0].iter.func.id == 'range' and len(n.elt.generators[0].iter.args) == 1 \
+                and isinstance(g.target, ast.Name) and isinstance(n.elt.generators[0].target, ast.Name):
+            used = {x.id for x in ast.walk(n.elt.elt) if isinstance(x, ast.Name)} | \
+                   {x.id for x in ast.walk(n.elt.generators[0].iter) if isinstance(x, ast.Name)}
+            if g.target.id not in used and n.elt.generators[0].target.id not in used:
+                outer_n = self.expr(it.args[0], path)
+                inner_n = self.expr(n.elt.generators[0].iter.args[0], path)
+                c = self.expr(n.elt.elt, path)
+                if isinstance(c, SNone):
+                    c = fresh('none', R)
+                if z3.is_expr(c) and not is_bool(c):
+                    et = 'int' if is_int(c) else 'real'
+                    clamp = lambda v: z3.If(v >= 0, v, z3.IntVal(0))
+                    return SList(z3.K(I, z3.K(I, c)), clamp(outer_n), ('list', et), z3.K(I, clamp(inner_n)))
         k = fresh('ci', I)          # symbolic position in the result
         sub = path.fork()
         sub.comp = True
@@ -715,6 +741,10 @@ class Gen(object):
             if f == 'abs':
                 a = ev(n.args[0])
                 return z3.If(a >= 0, a, -a)
+            if f == 'float' and isinstance(n.args[0], ast.Constant) and n.args[0].value in ('inf', '-inf'):
+                if 'INF' not in path.env:
+                    raise Unsupported("float('inf') needs a ghost argument INF in the contract")
+                return path.env['INF'] if n.args[0].value == 'inf' else -path.env['INF']
             if f == 'float':
                 a0 = n.args[0]
                 if isinstance(a0, ast.Call) and isinstance(a0.func, ast.Attribute) and a0.func.attr == 'format' \
@@ -762,6 +792,12 @@ class Gen(object):
         if isinstance(n.func, ast.Attribute):
             obj = n.func.value
             meth = n.func.attr
+            if isinstance(obj, ast.Call) and isinstance(obj.func, ast.Name) and obj.func.id == 'super':
+                key = 'super.' + meth
+                if key in self.c.get('dropped_calls', {}):
+                    self.dropped.append('%s(...) at line %d: %s' % (key, n.lineno, self.c['dropped_calls'][key]))
+                    return NONE
+                raise Unsupported('call of super().%s' % meth)
             if isinstance(obj, ast.Name) and isinstance(path.env.get(obj.id), SKwargs) and meth == 'get':
                 kw = path.env[obj.id]
                 key = n.args[0].value
@@ -976,6 +1012,10 @@ class Gen(object):
                 out.add(n.func.value.id)
         return out
 
+    @staticmethod
+    def _name_of(node):
+        return node.id if isinstance(node, ast.Name) else None
+
     def _target_names(self, t):
         if isinstance(t, ast.Name):
             return [t.id]
@@ -1129,6 +1169,15 @@ class Gen(object):
                     hi = z3.If(l.ln < hi, l.ln, hi)
                 kind = 'zip'
                 iterobj = ls
+            elif isinstance(it, ast.Call) and isinstance(it.func, ast.Name) and it.func.id == 'enumerate' and \
+                    isinstance(it.args[0], ast.Call) and isinstance(it.args[0].func, ast.Name) and it.args[0].func.id == 'zip':
+                ls = [self.expr(a, path) for a in it.args[0].args]
+                lo = z3.IntVal(0)
+                hi = ls[0].ln
+                for l in ls[1:]:
+                    hi = z3.If(l.ln < hi, l.ln, hi)
+                kind = 'enumzip'
+                iterobj = ls
             elif isinstance(it, ast.Call) and isinstance(it.func, ast.Name) and it.func.id == 'enumerate':
                 l = self.expr(it.args[0], path)
                 lo, hi = z3.IntVal(0), l.ln
@@ -1178,6 +1227,11 @@ class Gen(object):
                 self.bind(st.target, STuple([self.select(l, pos) for l in iterobj]), body)
             elif kind == 'enumerate':
                 self.bind(st.target, STuple([pos, self.select(iterobj, pos)]), body)
+            elif kind == 'enumzip':
+                # the zip lists may be modified by the body (bbmin[i] = ...): element values are read at the head state
+                cur = [body.env.get(self._name_of(a), l) if self._name_of(a) else l
+                       for a, l in zip(st.iter.args[0].args, iterobj)]
+                self.bind(st.target, STuple([pos, STuple([self.select(l, pos) for l in cur])]), body)
         else:
             guard = self.truth(self.expr(st.test, body))
             body.hyps.append(atom(guard))
@@ -1235,6 +1289,9 @@ class Gen(object):
             if t == 'kwargs':
                 env[a] = SKwargs({k: (env[v[1:]] if isinstance(v, str) and v.startswith('$') else self.spec_value(v))
                                   for k, v in c.get('kwargs', {}).items()})
+                continue
+            if isinstance(t, tuple) and t[0] == 'varargs':
+                env[a] = STuple([self.declare('%s_%d' % (a, k), t[2], hyps) for k in range(t[1])])
                 continue
             if t == 'self':
                 env[a] = SObject({k: (SFunc(v[1]) if isinstance(v, tuple) and v[0] == 'func' else self.declare('self_' + k, v, hyps))
